@@ -1,6 +1,7 @@
 import Driver.Util
 import RaftWal.Model.Segment
 import RaftWal.Model.SegmentRun
+import RaftWal.Model.SegmentRepair
 import RaftWal.Spec.Format
 namespace Driver
 open RaftWal
@@ -11,6 +12,8 @@ structure SegSt where
   hasW : Bool := false
   hasR : Bool := false
   w : Writer := default
+  /-- a failed append or seal may have left bytes behind the tail (segment/writer.go `staleTail`) -/
+  dirty : Bool := false
   sealedInfo : SegInfo := default
   bufSize : Nat := minBufSize
   /-- README-level history (base, id, codec, batches) while the file has only seen fault-free appends since `new`;
@@ -46,34 +49,35 @@ def segLine0 (st : SegSt) (line : String) : SegSt × String :=
   | ["new", id, base, min, codec, size] =>
     let info := mkInfo id base min "0" codec "0" size false
     if info.base = 0 then ({ st with hasW := false, hasFile := false }, "err other") else
-    ({ st with file := zeros info.sizeLimit, w := Writer.create info, hasW := true, hasFile := true,
+    ({ st with file := zeros info.sizeLimit, w := Writer.create info, dirty := false, hasW := true, hasFile := true,
                spec := some (info.base, info.id, info.codec, []) }, "ok")
   | "app" :: fault :: ents =>
     match ents.mapM parseEntry with
     | none => (st, "bad-op")
     | some es =>
-      let (e, w, file) := st.w.append st.file es (parseFault fault)
+      let (e, (w, dirty), file) := appendD (st.w, st.dirty) st.file es (parseFault fault)
       let spec := match st.spec, e, parseFault fault with
         | some (b, i, c, bs), none, .none =>
           some (b, i, c, bs ++ [{ payloads := es.map (·.2), sealing := w.sealedW.1 && !st.w.sealedW.1 }])
         | _, _, _ => none
-      ({ st with w := w, file := file, spec := spec }, match e with | none => "ok" | some e => "err " ++ segErr e)
+      ({ st with w := w, dirty := dirty, file := file, spec := spec }, match e with | none => "ok" | some e => "err " ++ segErr e)
   | "tear" :: mask :: ents =>
     match ents.mapM parseEntry with
     | none => (st, "bad-op")
     | some es =>
-      let (e, w, after) := st.w.append st.file es .none
+      let before := cleanFile (st.w, st.dirty) st.file
+      let (e, w, after) := st.w.append before es .none
       match e with
       | some e => (st, "err " ++ segErr e)
       | none =>
         let wrOff := st.w.writeOffset
         let wrLen := w.writeOffset - wrOff
         let m := mask.toList
-        let img := tearImage st.file after wrOff wrLen (fun j => m.getD (j % m.length) '0' == '1')
+        let img := tearImage before after wrOff wrLen (fun j => m.getD (j % m.length) '0' == '1')
         ({ st with file := img, w := default, hasW := false, spec := none }, "ok")
   | ["seal", fault] =>
-    let (r, w, file) := st.w.forceSeal st.file (parseFault fault)
-    ({ st with w := w, file := file, spec := none }, match r with | .ok is => s!"ok {is}" | .error e => "err " ++ segErr e)
+    let (r, (w, dirty), file) := forceSealD (st.w, st.dirty) st.file (parseFault fault)
+    ({ st with w := w, dirty := dirty, file := file, spec := none }, match r with | .ok is => s!"ok {is}" | .error e => "err " ++ segErr e)
   | ["sealed"] =>
     let (b, is) := st.w.sealedW
     (st, if b then s!"true {is}" else "false")
@@ -113,7 +117,7 @@ def segLine0 (st : SegSt) (line : String) : SegSt × String :=
   | ["recover", id, base, min, codec, size] =>
     let info := mkInfo id base min "0" codec "0" size false
     (match recoverTail info st.file with
-      | .ok (w, file) => ({ st with w := w, file := file, hasW := true, spec := none }, "ok")
+      | .ok (w, file) => ({ st with w := w, dirty := false, file := file, hasW := true, spec := none }, "ok")
       | .error e => ({ st with hasW := false, spec := none }, "err " ++ segErr e))
   | ["opensealed", id, base, min, max, codec, indexStart, size] =>
     let info := mkInfo id base min max codec indexStart size true
